@@ -251,6 +251,74 @@ def outbound(M, max_len):
     return h
 
 
+class LoopPatch:
+    """SecureHomeKitProtocol.__init__ calls asyncio.get_running_loop(): give it a stand-in"""
+
+    def __init__(self, M):
+        self.M = M
+
+    def __enter__(self):
+        import asyncio
+        self.saved = self.M.asyncio
+
+        class Facade:
+            def __getattr__(self, k):
+                return getattr(asyncio, k)
+
+            def get_running_loop(self):
+                return object()
+
+        self.M.asyncio = Facade()
+
+    def __exit__(self, *a):
+        self.M.asyncio = self.saved
+        return False
+
+
+def two_sessions(M):
+    """sessions are independent: bytes left undecoded in one session (cut mid-frame, then dropped) never reach the next one;
+    protocols are created through the real constructor"""
+    def h(ex):
+        env = Env(M, ex)
+        k1, k2 = env.key("a2c-session1"), env.key("a2c-session2")
+        pt1 = ex.fresh_bytes("pt1", 1, 64, opaque=True)
+        pt2 = ex.fresh_bytes("pt2", 1, 64, opaque=True)
+
+        def frame(key, pt):
+            hdr = le(slen(pt), 2)
+            return rope(hdr, env.encryptor(key).encrypt(env.b(hdr), env.b(env.nonce(0)), env.b(pt)))
+
+        f1, f2 = frame(k1, pt1), frame(k2, pt2)
+        cut = ex.fresh_int("cut", 1, 200)
+        ex.assume(cut < slen(f1))
+        saved_enc = (M.ChaCha20Poly1305Encryptor, M.ChaCha20Poly1305Decryptor)
+        if env.sym:
+            M.ChaCha20Poly1305Encryptor = M.ChaCha20Poly1305Decryptor = env.aead
+        err = None
+        try:
+            with LoopPatch(M), Recorder(M) as rec:
+                p1 = M.SecureHomeKitProtocol(FakeConnection(), env.b(k1) if not env.sym else k1, env.b(env.key("c2a-1")) if not env.sym else env.key("c2a-1"))
+                ex.require(p1.a2c_counter == 0 and p1.c2a_counter == 0, "a new session starts both frame counters at 0")
+                p1.transport = FakeTransport()
+                p1.data_received(env.b(as_rope(f1).slice(0, cut)))  # the read ends inside the frame, then the connection drops
+                n1 = len(rec.delivered)
+                p2 = M.SecureHomeKitProtocol(FakeConnection(), env.b(k2) if not env.sym else k2, env.b(env.key("c2a-2")) if not env.sym else env.key("c2a-2"))
+                p2.transport = FakeTransport()
+                try:
+                    p2.data_received(env.b(f2))
+                except RuntimeError:
+                    err = "RuntimeError"
+                delivered = rec.delivered[n1:]
+        finally:
+            M.ChaCha20Poly1305Encryptor, M.ChaCha20Poly1305Decryptor = saved_enc
+        ex.require(n1 == 0, "an incomplete frame is not delivered")
+        ex.require(err is None and len(delivered) == 1, "the next session decodes its own first frame (nothing is carried over from the previous session)")
+        if len(delivered) == 1:
+            ex.require(rope_eq(delivered[0], pt2), "the next session delivers exactly what its accessory sent")
+        return ex.observe([err, len(delivered)])
+    return h
+
+
 def nonce_layout(M):
     """PACK_NONCE(counter) == 4 zero bytes + LE64(counter) for every 64-bit counter"""
     def h(ex):
@@ -291,6 +359,7 @@ def build(tier, mutate=None):
         bounds={"payload_len": "0..%d (symbolic)" % out_max, "send_counter": "0..2^40 (symbolic)"},
         regions=["multi-frame", "exact-multiple"])
     add("nonce-layout", nonce_layout, bounds={"counter": "0..2^64-1"})
+    add("inbound/two-sessions", two_sessions, bounds={"leftover": "session 1 cut at any position inside its first frame", "plaintexts": "1..64 bytes each"})
     return units
 
 
